@@ -34,6 +34,10 @@ func runC03(c *Ctx) {
 	ruleStoreIndexSafety(c, "R03.h")
 	ruleHandlersAnswer(c, "R03.h")
 	ruleNilNilDeref(c, "R03.h")
+	rulePointerResultsChecked(c, "R03.h")
+	ruleConnLoopIndexSafety(c, "R03.h")
+	// a connection goroutine deadlocked on a lock it already holds never replies again
+	ruleNoReentrantLock(c, buildSyncModel(c), "R03.l")
 }
 
 // ruleLoopProgress: A4 over all loops of the framework packages and the example store.
